@@ -2,7 +2,8 @@
    statistics builders), BucketModel.v (time buckets, tag groups). The correspondence (props/C09/run.py, harness/cmd/c09)
    runs these models against the real shard on every check. *)
 From Coq Require Import ZArith List Bool Lia Permutation.
-From OG Require Import C09.Model C09.Proofs C09.ListSpec C09.ChunkModel C09.ChunkProofs C09.BucketModel C09.BucketProofs.
+From OG Require Import C09.Model C09.Proofs C09.ListSpec C09.ChunkModel C09.ChunkProofs C09.BucketModel C09.BucketProofs C09.CrossC07 C09.CrossC07Proofs.
+From OG Require C07.Model C07.ModelPreAgg C07.ModelStats.
 Import ListNotations.
 Open Scope Z_scope.
 
@@ -182,3 +183,19 @@ Example C09_bucket_example :   (* two series in group 7, one in group 8; buckets
   map (fun x => (fst x, cnt (snd x), smax (snd x))) (bucket_table (fun _ => true) 0 12 5 [s1; s2; s3] 7 false)
   = [(0, 3, Some (5, 4)); (1, 2, Some (6, 8)); (2, 1, Some (9, 11))].
 Proof. vm_compute. reflexivity. Qed.
+
+(* ================= one source of truth with C07 (CrossC07.v, CrossC07Proofs.v) ================= *)
+(* C07's model of the integer statistics BUILDER (IntegerPreAgg.reset / addValues, segment by segment, int64 bit patterns,
+   repaired start-value rule; imported from coq/C07/ModelStats.v) computes, for every segment layout of time-ordered rows
+   with int64 values, the statistics C09 reasons about: count, sum (as a 64-bit pattern: also when the sum wraps), min and
+   max with the times of their first occurrence. With C07's stats_int_repaired this makes `c_stats = build_stats`, the
+   hypothesis of the chunk theorems, a consequence of the builder model for integer columns. *)
+Theorem C09_stats_builder_agrees_with_C07 : forall segs : list (list row), asc (concat segs) -> vals_in_range (concat segs) ->
+  let s7 := OG.C07.ModelStats.int_build true (map c07_rows segs) in
+  let s9 := build_stats (concat segs) in
+  OG.C07.ModelPreAgg.s_cnt s7 = cnt s9 /\
+  OG.C07.ModelPreAgg.s_sum s7 = pat (sum s9) /\
+  (cnt s9 <> 0 -> smin s9 = Some (OG.C07.ModelPreAgg.sgn64 (OG.C07.ModelPreAgg.s_min s7), OG.C07.ModelPreAgg.s_minT s7) /\
+                  smax s9 = Some (OG.C07.ModelPreAgg.sgn64 (OG.C07.ModelPreAgg.s_max s7), OG.C07.ModelPreAgg.s_maxT s7)).
+Proof. exact builder_models_agree. Qed.
+Print Assumptions C09_stats_builder_agrees_with_C07.
